@@ -145,6 +145,10 @@ class SimTransport(asyncio.Transport):
     def write_eof(self):
         if self._closing or self._eof_written:
             return
+        if self.peer is None or self.peer._dead:
+            # the peer has closed/reset already but this end has not been told yet: shutdown(SHUT_WR) fails
+            self.net.stats["fault:write_eof_on_reset_connection"] += 1
+            raise OSError(errno.ENOTCONN, "Transport endpoint is not connected")
         self._eof_written = True
         self.net.stats["fault:half_close"] += 1
         if not self._buf:
